@@ -6,6 +6,7 @@ import TacklerModel.Lemmas.Time
 
 * base64: `b64decode_encode` (decode ∘ encode = id), `b64encode_decode` (only canonical encodings are accepted),
   `b64decode_length`, `b64decode_symbols`
+* UTF-8: `utf8decode_encode`
 * decimals: `decOfText_toChars` (the `Display` text of a normal decimal reads back as that decimal),
   `decOfText_normal` (whatever is read is a normal decimal)
 * timestamps: `parseTsJson_tsJsonChars` (the serialised text of an instant reads back as that instant)
@@ -283,6 +284,95 @@ theorem b64decode_symbols (e : List Char) (bs : List UInt8) (h : b64decode e = s
     ∀ c ∈ e, (b64val c).isSome = true ∨ c = '=' := by
   rw [← b64encode_decode e bs h]
   exact b64encode_symbols bs
+
+/-! ## UTF-8 -/
+
+theorem char_range (c : Char) : c.toNat < 55296 ∨ (57343 < c.toNat ∧ c.toNat < 1114112) := by
+  have h := c.valid
+  unfold UInt32.isValidChar Nat.isValidChar at h
+  exact h
+
+theorem isCont_byte (n : Nat) (h : 128 ≤ n ∧ n < 192) : isCont (byte n) = true := by
+  unfold isCont
+  rw [byte_toNat n (by omega)]
+  simp only [Bool.and_eq_true, decide_eq_true_eq]
+  exact h
+
+theorem utf8decode_step1 (n : Nat) (rest : List UInt8) (cs : List Char) (h : n < 128) (hr : utf8decode rest = some cs) :
+    utf8decode (byte n :: rest) = some (Char.ofNat n :: cs) := by
+  rw [utf8decode.eq_def]
+  simp only [byte_toNat n (by omega), if_pos h, hr]
+
+theorem utf8decode_step2 (n0 n1 : Nat) (rest : List UInt8) (cs : List Char) (h0 : 194 ≤ n0 ∧ n0 < 224) (h1 : 128 ≤ n1 ∧ n1 < 192)
+    (hr : utf8decode rest = some cs) :
+    utf8decode (byte n0 :: byte n1 :: rest) = some (Char.ofNat ((n0 - 192) * 64 + (n1 - 128)) :: cs) := by
+  rw [utf8decode.eq_def]
+  simp only [byte_toNat n0 (by omega)]
+  rw [if_neg (by omega), if_pos h0]
+  simp only [isCont_byte n1 h1, if_true, hr, byte_toNat n1 (by omega)]
+
+theorem utf8decode_step3 (n0 n1 n2 : Nat) (rest : List UInt8) (cs : List Char) (h0 : 224 ≤ n0 ∧ n0 < 240) (h1 : 128 ≤ n1 ∧ n1 < 192)
+    (h2 : 128 ≤ n2 ∧ n2 < 192) (hlo : 2048 ≤ (n0 - 224) * 4096 + (n1 - 128) * 64 + (n2 - 128))
+    (hs : ¬ (55296 ≤ (n0 - 224) * 4096 + (n1 - 128) * 64 + (n2 - 128) ∧ (n0 - 224) * 4096 + (n1 - 128) * 64 + (n2 - 128) ≤ 57343))
+    (hr : utf8decode rest = some cs) :
+    utf8decode (byte n0 :: byte n1 :: byte n2 :: rest) =
+      some (Char.ofNat ((n0 - 224) * 4096 + (n1 - 128) * 64 + (n2 - 128)) :: cs) := by
+  rw [utf8decode.eq_def]
+  simp only [byte_toNat n0 (by omega)]
+  rw [if_neg (by omega), if_neg (by omega), if_pos h0]
+  simp only [isCont_byte n1 h1, isCont_byte n2 h2, byte_toNat n1 (by omega), byte_toNat n2 (by omega), Bool.and_self, Bool.true_and,
+    decide_eq_true hlo, hr]
+  have : (decide (55296 ≤ (n0 - 224) * 4096 + (n1 - 128) * 64 + (n2 - 128)) &&
+      decide ((n0 - 224) * 4096 + (n1 - 128) * 64 + (n2 - 128) ≤ 57343)) = false := by
+    rw [Bool.and_eq_false_iff]
+    simp only [decide_eq_false_iff_not]
+    omega
+  simp only [this, Bool.not_false, if_true]
+
+theorem utf8decode_step4 (n0 n1 n2 n3 : Nat) (rest : List UInt8) (cs : List Char) (h0 : 240 ≤ n0 ∧ n0 < 245) (h1 : 128 ≤ n1 ∧ n1 < 192)
+    (h2 : 128 ≤ n2 ∧ n2 < 192) (h3 : 128 ≤ n3 ∧ n3 < 192)
+    (hlo : 65536 ≤ (n0 - 240) * 262144 + (n1 - 128) * 4096 + (n2 - 128) * 64 + (n3 - 128))
+    (hhi : (n0 - 240) * 262144 + (n1 - 128) * 4096 + (n2 - 128) * 64 + (n3 - 128) ≤ 1114111)
+    (hr : utf8decode rest = some cs) :
+    utf8decode (byte n0 :: byte n1 :: byte n2 :: byte n3 :: rest) =
+      some (Char.ofNat ((n0 - 240) * 262144 + (n1 - 128) * 4096 + (n2 - 128) * 64 + (n3 - 128)) :: cs) := by
+  rw [utf8decode.eq_def]
+  simp only [byte_toNat n0 (by omega)]
+  rw [if_neg (by omega), if_neg (by omega), if_neg (by omega), if_pos h0]
+  simp only [isCont_byte n1 h1, isCont_byte n2 h2, isCont_byte n3 h3, byte_toNat n1 (by omega), byte_toNat n2 (by omega),
+    byte_toNat n3 (by omega), Bool.and_self, decide_eq_true hlo, decide_eq_true hhi, if_true, hr]
+
+/-- **UTF-8: decode ∘ encode = id** for every text -/
+theorem utf8decode_encode : ∀ (cs : List Char), utf8decode (utf8encode cs) = some cs
+  | [] => rfl
+  | c :: cs => by
+    have ih := utf8decode_encode cs
+    have hr := char_range c
+    have hc : Char.ofNat c.toNat = c := Char.ofNat_toNat c
+    simp only [utf8encode, utf8encodeChar]
+    by_cases h1 : c.toNat < 128
+    · rw [if_pos h1]
+      simp only [List.cons_append, List.nil_append]
+      rw [utf8decode_step1 _ _ _ h1 ih, hc]
+    · rw [if_neg h1]
+      by_cases h2 : c.toNat < 2048
+      · rw [if_pos h2]
+        simp only [List.cons_append, List.nil_append]
+        rw [utf8decode_step2 _ _ _ _ (by omega) (by omega) ih]
+        have e : (192 + c.toNat / 64 - 192) * 64 + (128 + c.toNat % 64 - 128) = c.toNat := by omega
+        rw [e, hc]
+      · rw [if_neg h2]
+        by_cases h3 : c.toNat < 65536
+        · rw [if_pos h3]
+          simp only [List.cons_append, List.nil_append]
+          have e : (224 + c.toNat / 4096 - 224) * 4096 + (128 + c.toNat / 64 % 64 - 128) * 64 + (128 + c.toNat % 64 - 128) = c.toNat := by
+            omega
+          rw [utf8decode_step3 _ _ _ _ _ (by omega) (by omega) (by omega) (by omega) (by omega) ih, e, hc]
+        · rw [if_neg h3]
+          simp only [List.cons_append, List.nil_append]
+          have e : (240 + c.toNat / 262144 - 240) * 262144 + (128 + c.toNat / 4096 % 64 - 128) * 4096 +
+              (128 + c.toNat / 64 % 64 - 128) * 64 + (128 + c.toNat % 64 - 128) = c.toNat := by omega
+          rw [utf8decode_step4 _ _ _ _ _ _ (by omega) (by omega) (by omega) (by omega) (by omega) (by omega) ih, e, hc]
 
 /-! ## decimals -/
 
